@@ -339,3 +339,21 @@ package bfe_spdy
 //@   ensures[only_visible_ascii_without_colon_space_or_control_bytes] result0 ==> nameOK(name)
 //@   ensures[every_such_name_is_accepted] nameOK(name) ==> result0
 //@   loop 1 invariant[checked_so_far] 0 <= i && i <= len(name) && len(name) > 0 && (forall k int :: 0 <= k && k < i ==> name[k] > 32 && name[k] < 127 && (name[k] == 58 ==> k == 0))
+
+// ---- C40: a change of SETTINGS_INITIAL_WINDOW_SIZE moves every stream window by the difference ----
+// (and lets a window go negative: a later WINDOW_UPDATE first has to pay the deficit back)
+
+//@ func (*serverConn).processSettingInitialWindowSize
+//@   props C40
+//@   requires sc != nil
+//@   requires[every_stream_has_its_own_flow] (forall i uint32 :: has(sc.streams, i) ==> sc.streams[i] != nil) && (forall i uint32 :: forall j uint32 :: has(sc.streams, i) && has(sc.streams, j) && i != j ==> sc.streams[i] != sc.streams[j])
+//@   requires[the_sizes_are_valid_window_sizes] 0 <= sc.initialWindowSize && val <= 2147483647
+//@   frame Check pure
+//@   frame Inc pure
+//@   modifies sc.initialWindowSize, any flow.n
+//@   let growth := int32(val) - old(sc.initialWindowSize)
+//@   ensures[on_success_every_stream_window_moved_by_the_difference] result0 == nil ==> (forall i uint32 :: has(sc.streams, i) ==> sc.streams[i].flow.n == old(sc.streams[i].flow.n) + growth)
+//@   ensures[the_new_initial_size_is_recorded] sc.initialWindowSize == int32(val)
+//@   loop 1 invariant[streams_served_so_far_moved_by_the_difference] forall i uint32 :: has(sc.streams, i) && visited(i) ==> sc.streams[i].flow.n == old(sc.streams[i].flow.n) + growth
+//@   loop 1 invariant[the_other_streams_are_untouched_so_far] forall i uint32 :: has(sc.streams, i) && !visited(i) ==> sc.streams[i].flow.n == old(sc.streams[i].flow.n)
+//@   loop 1 invariant[the_difference] growth == sc.initialWindowSize - old(sc.initialWindowSize) && sc.initialWindowSize == int32(val)
